@@ -23,8 +23,8 @@ type Prog struct {
 	// of the program (signature "<name>: deadlock" ...) unless the body already recorded a failure
 	// or sets x.SetData("allow", "deadlock,horizon").
 	ShardDepth int
-	NoShard    bool // the harness distributes whole programs over the shards itself (r.Mine): explore this program completely in this process
-	Delay      int // bound on non-default choices at non-preemptive switch points; 0 = unlimited, n>0 = at most n, -1 = none allowed
+	NoShard    bool    // the harness distributes whole programs over the shards itself (r.Mine): explore this program completely in this process
+	Delay      int     // bound on non-default choices at non-preemptive switch points; 0 = unlimited, n>0 = at most n, -1 = none allowed
 	Seconds    float64 // wall-clock share of this program (0 = whatever is left of the run budget)
 }
 
